@@ -511,6 +511,16 @@ def _task_end(t):
 
 
 # ---------------------------------------------------------------------------------- socket / time / os
+def io_error(kind):
+    """the exceptions a failing socket operation raises: all are OSError, only some are ConnectionError"""
+    import errno
+    return {"pipe": BrokenPipeError(errno.EPIPE, "Broken pipe"),
+            "reset": ConnectionResetError(errno.ECONNRESET, "Connection reset by peer"),
+            "timedout": TimeoutError(errno.ETIMEDOUT, "Connection timed out"),
+            "unreach": OSError(errno.EHOSTUNREACH, "No route to host"),
+            "bare": OSError("I/O failure")}.get(kind) or ConnectionResetError(errno.ECONNRESET, "Connection reset by peer")
+
+
 class Socket:
     """Scripted connection.  Inbound: chunks delivered by the proxy thread; `eof`/`reset` after them.
     Outbound: every sendall is recorded; the k-th may fail."""
@@ -526,6 +536,7 @@ class Socket:
         self.pending_writers = []
         self.send_limit = 65536     # bytes one send() accepts (a nearly full socket buffer accepts fewer)
         self.timeout = None         # socket.settimeout()
+        self.fail_write_kind = "pipe"   # which OSError a failing write raises (see io_error)
         self.slow_write_at = None   # 1-based index of a write that the (slowly reading) peer takes `slow_delay` seconds to accept
         self.slow_delay = 2.5
 
@@ -551,7 +562,7 @@ class Socket:
             SCHED.event("recv-eof")
             return b""
         SCHED.event("recv-reset")
-        raise ConnectionResetError(104, "Connection reset by peer")
+        raise io_error(self.in_eof)
 
     def _slow_peer(self):
         """the peer reads slowly: the next write takes `slow_delay` seconds to be accepted — longer than a socket timeout, if
@@ -585,7 +596,7 @@ class Socket:
             raise OSError(9, "Bad file descriptor")
         if self.fail_write_at is not None and self.nwrites >= self.fail_write_at:
             SCHED.event("send-fails", self.nwrites)
-            raise BrokenPipeError(32, "Broken pipe")
+            raise io_error(self.fail_write_kind)
         self.sent.append((SCHED.clock, bytes(data)))
         SCHED.event("sent", bytes(data))
 
@@ -598,7 +609,7 @@ class Socket:
             raise OSError(9, "Bad file descriptor")
         if self.fail_write_at is not None and self.nwrites >= self.fail_write_at:
             SCHED.event("send-fails", self.nwrites)
-            raise BrokenPipeError(32, "Broken pipe")
+            raise io_error(self.fail_write_kind)
         part = bytes(data[:self.send_limit])
         self.sent.append((SCHED.clock, part))
         SCHED.event("sent", part)
